@@ -106,7 +106,7 @@ Ltac frame_pc HO :=
 Lemma step_dput t ch st st' : s_dput st = false -> step t ch st = Some st' -> s_dput st' = false.
 Proof.
   intros Hd H. unfold step in H.
-  destruct (t_pc (s_thr st t)); [destruct (t_prog (s_thr st t)) as [|[]]| | | | | |];
+  destruct (t_pc (s_thr st t)); [destruct (t_prog (s_thr st t)) as [|[]]| | | | | | |];
     repeat match type of H with
            | None = Some _ => discriminate
            | Some _ = Some _ => injection H as <-; simpl; assumption
@@ -170,9 +170,11 @@ Proof.
     + (* Compute *)
       intros [= <-]. frame_pc HO.
   - (* CAS *)
-    destruct (s_ptr st); intros [= <-]; frame_pc HO.
+    destruct (s_ptr st); [|destruct (s_late st)]; intros [= <-]; frame_pc HO.
   - (* Load after a lost CAS *)
     destruct (s_ptr st); intros [= <-]; frame_pc HO.
+  - (* late New (regression variant only) *)
+    intros [= <-]. frame_pc HO.
   - (* pool.Get() *)
     destruct (ch <? length (s_pool st p)) eqn:Hch.
     + (* an element of the pool *)
@@ -200,6 +202,7 @@ Proof.
         -- rewrite (upd_other _ t t') by assumption. intros H. destruct (O4 t' hi' H) as (A & B & C).
            split; [|split; assumption]. rewrite upd_other; [assumption|]. intros E. rewrite E in A. congruence.
     + (* New() *)
+      destruct (negb (s_newset st p)); [intros [= <-]; frame_pc HO|].
       intros [= <-]. set (s := s_nscr st).
       exists (upd loc s (Some (Held t))). unfold Own. simpl. split; [|split; [|split]].
       * apply O1.
@@ -219,7 +222,7 @@ Proof.
     destruct (O3 t seed p s Hpc) as (Ls & Bs).
     assert (Succ : exists loc', Own (mkState (s_ptr st) (s_npools st) (s_pool st) (upd (s_contents st) s seed) (s_nscr st)
                      (upd (s_thr st) t (mkThread (tl (t_prog th)) Idle (S (t_nh th))
-                        (upd (t_h th) (t_nh th) (mkHandle s (Some p) seed)) (RGarble seed :: t_res th))) (s_dput st)) loc').
+                        (upd (t_h th) (t_nh th) (mkHandle s (Some p) seed)) (RGarble seed :: t_res th))) (s_dput st) (s_newset st) (s_late st)) loc').
     {
     exists (upd loc s (Some (Live t (t_nh th)))). unfold Own. simpl. split; [|split; [|split]].
       + apply O1.
@@ -367,7 +370,7 @@ End Reachable.
 Lemma step_ptr_stable t ch st st' p : step t ch st = Some st' -> s_ptr st = Some p -> s_ptr st' = Some p.
 Proof.
   unfold step. intros H Hp. rewrite Hp in H.
-  destruct (t_pc (s_thr st t)); [destruct (t_prog (s_thr st t)) as [|[]]| | | | | |];
+  destruct (t_pc (s_thr st t)); [destruct (t_prog (s_thr st t)) as [|[]]| | | | | | |];
     repeat match type of H with
            | None = Some _ => discriminate
            | Some _ = Some _ => injection H as <-; simpl; auto
@@ -387,6 +390,78 @@ Proof.
   unfold run_from in *. simpl. apply IH. now apply exec_ptr_stable.
 Qed.
 
+(* ---- initialise, then publish *)
+Lemma step_frame t ch st st' t' : step t ch st = Some st' -> t' <> t -> s_thr st' t' = s_thr st t'.
+Proof.
+  intros H Hne. unfold step in H.
+  destruct (t_pc (s_thr st t)); [destruct (t_prog (s_thr st t)) as [|[]]| | | | | | |];
+    repeat match type of H with
+           | None = Some _ => discriminate
+           | Some _ = Some _ => injection H as <-; simpl; now rewrite upd_other
+           | context [match ?x with _ => _ end] => destruct x
+           end.
+Qed.
+
+(* the pool object is complete (its New function is set) before anybody can
+   see it: when it is the CompareAndSwap argument, when it is installed, when
+   a goroutine is about to Get from it *)
+Definition InitInv (st : state) : Prop :=
+  s_late st = false /\
+  (forall p, s_ptr st = Some p -> s_newset st p = true) /\
+  (forall t seed p, t_pc (s_thr st t) = GCas seed p \/ t_pc (s_thr st t) = GGet seed p -> s_newset st p = true) /\
+  (forall t seed p, t_pc (s_thr st t) <> GInit seed p).
+
+Lemma step_initinv t ch st st' : InitInv st -> step t ch st = Some st' -> InitInv st'.
+Proof.
+  intros (Hl & I1 & I2 & I3) H. pose proof (fun t0 => step_frame t ch st st' t0 H) as Other.
+  assert (Goal0 : s_late st' = false /\
+                 (forall x, s_newset st x = true -> s_newset st' x = true) /\
+                 (forall p, s_ptr st' = Some p -> s_ptr st = Some p \/ s_newset st' p = true) /\
+                 (forall seed p, t_pc (s_thr st' t) = GCas seed p \/ t_pc (s_thr st' t) = GGet seed p -> s_newset st' p = true) /\
+                 (forall seed p, t_pc (s_thr st' t) <> GInit seed p)).
+  { unfold step in H. rewrite Hl in H. simpl negb in H. cbv iota in H.
+    destruct (t_pc (s_thr st t)) eqn:Hpc.
+    - destruct (t_prog (s_thr st t)) as [|[seed|seed site|hi|hi|x] rest]; [discriminate| | | | |].
+      + destruct (s_ptr st) as [p|] eqn:Hp; injection H as <-; simpl; rewrite upd_same; simpl;
+          (split; [first [assumption|reflexivity]|]); (split; [intros x Hx; unfold upd; destruct (x =? s_npools st); auto|]);
+          (split; [intros p0 Hp0; first [left; congruence|discriminate]|]); split; try (intros; discriminate).
+        * intros seed0 p0 [E|E]; [discriminate|]. injection E as _ <-. auto.
+        * intros seed0 p0 [E|E]; [|discriminate]. injection E as _ <-. now rewrite upd_same.
+      + destruct (s_ptr st) as [p|] eqn:Hp; injection H as <-; simpl; rewrite upd_same; simpl;
+          (split; [first [assumption|reflexivity]|]); (split; [intros x Hx; unfold upd; destruct (x =? s_npools st); auto|]);
+          (split; [intros p0 Hp0; first [left; congruence|discriminate]|]); split; try (intros; discriminate).
+        * intros seed0 p0 [E|E]; [discriminate|]. injection E as _ <-. auto.
+        * intros seed0 p0 [E|E]; [|discriminate]. injection E as _ <-. now rewrite upd_same.
+      + destruct (h_pool (t_h (s_thr st t) hi)); [destruct (hi <? t_nh (s_thr st t))|]; injection H as <-; simpl;
+          rewrite upd_same; simpl; repeat split; auto; try (intros; discriminate); intros ? ? [E|E]; discriminate.
+      + destruct (h_pool (t_h (s_thr st t) hi)); [destruct (hi <? t_nh (s_thr st t))|]; injection H as <-; simpl;
+          rewrite upd_same; simpl; repeat split; auto; try (intros; discriminate); intros ? ? [E|E]; discriminate.
+      + injection H as <-; simpl; rewrite upd_same; simpl; repeat split; auto; try (intros; discriminate); intros ? ? [E|E]; discriminate.
+    - assert (Np : s_newset st p = true) by (apply (I2 t seed p); now left).
+      destruct (s_ptr st) as [q|] eqn:Hp; injection H as <-; simpl; rewrite upd_same; simpl;
+        (split; [first [assumption|reflexivity]|]); (split; [auto|]); split.
+      + intros p0 Hp0. left. congruence.
+      + split; [intros ? ? [E|E]; discriminate|intros; discriminate].
+      + intros p0 [= <-]. now right.
+      + split; [|intros; discriminate]. intros seed0 p0 [E|E]; [discriminate|]. injection E as _ <-. exact Np.
+    - destruct (s_ptr st) as [q|] eqn:Hp; injection H as <-; simpl; rewrite upd_same; simpl;
+        (split; [first [assumption|reflexivity]|]); (split; [auto|]); (split; [intros p0 Hp0; first [left; congruence|discriminate]|]); split; try (intros; discriminate).
+      + intros seed0 p0 [E|E]; [discriminate|]. injection E as _ <-. auto.
+      + intros ? ? [E|E]; discriminate.
+    - exfalso. exact (I3 t seed p Hpc).
+    - destruct (ch <? length (s_pool st p)); [|destruct (negb (s_newset st p))]; injection H as <-; simpl;
+        rewrite upd_same; simpl; repeat split; auto; try (intros; discriminate); intros ? ? [E|E]; discriminate.
+    - destruct (t_prog (s_thr st t)) as [|[]]; injection H as <-; simpl; rewrite upd_same; simpl;
+        repeat split; auto; try (intros; discriminate); intros ? ? [E|E]; discriminate.
+    - injection H as <-; simpl; rewrite upd_same; simpl; repeat split; auto; try (intros; discriminate); intros ? ? [E|E]; discriminate.
+    - injection H as <-; simpl; rewrite upd_same; simpl; repeat split; auto; try (intros; discriminate); intros ? ? [E|E]; discriminate. }
+  destruct Goal0 as (G1 & G2 & G3 & G4 & G5). split; [exact G1|]. split; [|split].
+  - intros p Hp. destruct (G3 p Hp) as [A|A]; [apply G2; auto|exact A].
+  - intros t' seed p. destruct (Nat.eq_dec t' t) as [->|Hne]; [apply G4|]. rewrite Other by assumption.
+    intros E. apply G2. eapply I2; eauto.
+  - intros t' seed p. destruct (Nat.eq_dec t' t) as [->|Hne]; [apply G5|]. rewrite Other by assumption. apply I3.
+Qed.
+
 (* every pool a goroutine is about to use, and the pool of every handle, is
    the installed one: CAS losers use the winner's *)
 Definition PoolInv (st : state) : Prop :=
@@ -394,14 +469,14 @@ Definition PoolInv (st : state) : Prop :=
   (forall t seed p s, t_pc (s_thr st t) = GFill seed p s -> s_ptr st = Some p) /\
   (forall t hi p, h_pool (t_h (s_thr st t) hi) = Some p -> s_ptr st = Some p).
 
-Lemma step_poolinv t ch st st' : PoolInv st -> step t ch st = Some st' -> PoolInv st'.
+Lemma step_poolinv t ch st st' : InitInv st -> PoolInv st -> step t ch st = Some st' -> PoolInv st'.
 Proof.
-  intros (P1 & P2 & P3) H.
+  intros (Hl & _ & _ & Hni) (P1 & P2 & P3) H.
   assert (Stable : forall p, s_ptr st = Some p -> s_ptr st' = Some p)
     by (intros p; eapply step_ptr_stable; eauto).
   assert (Other : forall t', t' <> t -> s_thr st' t' = s_thr st t').
   { intros t' Hne. unfold step in H.
-    destruct (t_pc (s_thr st t)); [destruct (t_prog (s_thr st t)) as [|[]]| | | | | |];
+    destruct (t_pc (s_thr st t)); [destruct (t_prog (s_thr st t)) as [|[]]| | | | | | |];
       repeat match type of H with
              | None = Some _ => discriminate
              | Some _ = Some _ => injection H as <-; simpl; now rewrite upd_other
@@ -409,8 +484,8 @@ Proof.
              end. }
   unfold PoolInv. split; [|split].
   - intros t' seed p. destruct (Nat.eq_dec t' t) as [->|Hne].
-    + unfold step in H. destruct (t_pc (s_thr st t)) eqn:Hpc;
-        [destruct (t_prog (s_thr st t)) as [|[]]| | | | | |];
+    + unfold step in H. rewrite Hl in H. destruct (t_pc (s_thr st t)) eqn:Hpc;
+        [destruct (t_prog (s_thr st t)) as [|[]]| | |exfalso; exact (Hni _ _ _ Hpc)| | | |];
         repeat match type of H with
                | None = Some _ => discriminate
                | Some _ = Some _ => injection H as <-; simpl; rewrite upd_same; simpl;
@@ -419,8 +494,8 @@ Proof.
                end.
     + rewrite Other by assumption. intros Hg. apply Stable. eapply P1; eauto.
   - intros t' seed p s. destruct (Nat.eq_dec t' t) as [->|Hne].
-    + unfold step in H. destruct (t_pc (s_thr st t)) eqn:Hpc;
-        [destruct (t_prog (s_thr st t)) as [|[]]| | | | | |];
+    + unfold step in H. rewrite Hl in H. destruct (t_pc (s_thr st t)) eqn:Hpc;
+        [destruct (t_prog (s_thr st t)) as [|[]]| | |exfalso; exact (Hni _ _ _ Hpc)| | | |];
         repeat match type of H with
                | None = Some _ => discriminate
                | Some _ = Some _ => injection H as <-; simpl; rewrite upd_same; simpl;
@@ -429,8 +504,8 @@ Proof.
                end.
     + rewrite Other by assumption. intros Hg. apply Stable. eapply P2; eauto.
   - intros t' hi p. destruct (Nat.eq_dec t' t) as [->|Hne].
-    + unfold step in H. destruct (t_pc (s_thr st t)) eqn:Hpc;
-        [destruct (t_prog (s_thr st t)) as [|[]]| | | | | |];
+    + unfold step in H. rewrite Hl in H. destruct (t_pc (s_thr st t)) eqn:Hpc;
+        [destruct (t_prog (s_thr st t)) as [|[]]| | |exfalso; exact (Hni _ _ _ Hpc)| | | |];
         repeat match type of H with
                | None = Some _ => discriminate
                | Some _ = Some _ => injection H as <-; simpl; rewrite upd_same; simpl
@@ -447,14 +522,28 @@ Proof.
     + rewrite Other by assumption. intros Hg. apply Stable. eapply P3; eauto.
 Qed.
 
-Lemma run_poolinv progs sched : PoolInv (run_from (init progs) sched).
+Lemma run_initinv progs sched : InitInv (run_from (init progs) sched).
 Proof.
-  assert (G : forall sched st, PoolInv st -> PoolInv (run_from st sched)).
+  assert (G : forall sched st, InitInv st -> InitInv (run_from st sched)).
   { induction sched0 as [|it r IH]; intros st HI; [exact HI|].
     unfold run_from in *. simpl. apply IH. destruct it as [t ch|p i]; simpl.
-    - destruct (step t ch st) eqn:Hs; [eapply step_poolinv; eauto|exact HI].
+    - destruct (step t ch st) eqn:Hs; [eapply step_initinv; eauto|exact HI].
     - exact HI. }
-  apply G. unfold PoolInv, init. simpl. repeat split; intros; discriminate.
+  apply G. unfold InitInv, init, init_cfg. simpl. repeat split; intros; try discriminate.
+  destruct H; discriminate.
+Qed.
+
+Lemma run_poolinv progs sched : PoolInv (run_from (init progs) sched).
+Proof.
+  assert (G : forall sched st, InitInv st -> PoolInv st -> InitInv (run_from st sched) /\ PoolInv (run_from st sched)).
+  { induction sched0 as [|it r IH]; intros st HN HI; [split; assumption|].
+    unfold run_from in *. simpl. destruct it as [t ch|p i]; simpl.
+    - destruct (step t ch st) eqn:Hs; [|now apply IH].
+      apply IH; [eapply step_initinv; eauto|eapply step_poolinv; eauto].
+    - apply IH; assumption. }
+  apply G.
+  - apply (run_initinv progs []).
+  - unfold PoolInv, init, init_cfg. simpl. repeat split; intros; discriminate.
 Qed.
 
 (* ------------------------------------------------------------------ *)
@@ -500,7 +589,7 @@ Proof.
   intros (_ & loc & O1 & O2 & O3 & O4) HE H.
   assert (Other : forall t', t' <> t -> s_thr st' t' = s_thr st t').
   { intros t' Hne. unfold step in H.
-    destruct (t_pc (s_thr st t)); [destruct (t_prog (s_thr st t)) as [|[]]| | | | | |];
+    destruct (t_pc (s_thr st t)); [destruct (t_prog (s_thr st t)) as [|[]]| | | | | | |];
       repeat match type of H with
              | None = Some _ => discriminate
              | Some _ = Some _ => injection H as <-; simpl; now rewrite upd_other
@@ -508,12 +597,13 @@ Proof.
              end. }
   intros t' hi v1. destruct (Nat.eq_dec t' t) as [->|Hne].
   - unfold step in H. destruct (t_pc (s_thr st t)) eqn:Hpc;
-      [destruct (t_prog (s_thr st t)) as [|[]] eqn:Hprog| | | | | |];
+      [destruct (t_prog (s_thr st t)) as [|[]] eqn:Hprog| | | | | | |];
       repeat match type of H with
              | None = Some _ => discriminate
              | Some _ = Some _ => injection H as <-; simpl; rewrite upd_same; simpl; try discriminate
              | context [match ?x with _ => _ end] => destruct x eqn:?
              end.
+    all: try (destruct (s_late st); simpl; discriminate).
     (* the only step that enters EEnd: the first read of Eval *)
     intros [= <- <-].
     assert (Hl : live (s_thr st t) hi0 = true).
@@ -563,7 +653,7 @@ Definition gprog (th : thread) (seed : nat) : Prop :=
 Definition pc_ok (st : state) (th : thread) : Prop :=
   match t_pc th with
   | Idle => True
-  | GCas seed _ | GGet seed _ | GFill seed _ _ => gprog th seed
+  | GCas seed _ | GInit seed _ | GGet seed _ | GFill seed _ _ => gprog th seed
   | GLoad seed => gprog th seed /\ s_ptr st <> None
   | RClear hi => exists r, t_prog th = ORelease hi :: r /\ hi < t_nh th /\ h_pool (t_h th hi) <> None
   | EEnd hi _ => exists r, t_prog th = OEval hi :: r
@@ -596,7 +686,7 @@ Qed.
 Lemma step_other t ch st st' t' : step t ch st = Some st' -> t' <> t -> s_thr st' t' = s_thr st t'.
 Proof.
   intros H Hne. unfold step in H.
-  destruct (t_pc (s_thr st t)); [destruct (t_prog (s_thr st t)) as [|[]]| | | | | |];
+  destruct (t_pc (s_thr st t)); [destruct (t_prog (s_thr st t)) as [|[]]| | | | | | |];
     repeat match type of H with
            | None = Some _ => discriminate
            | Some _ = Some _ => injection H as <-; simpl; now rewrite upd_other
@@ -605,15 +695,15 @@ Proof.
 Qed.
 
 Lemma step_lininv progs t ch st st' :
-  Inv st -> EvalInv st -> LinInv progs st -> step t ch st = Some st' -> LinInv progs st'.
+  Inv st -> InitInv st -> EvalInv st -> LinInv progs st -> step t ch st = Some st' -> LinInv progs st'.
 Proof.
-  intros (_ & loc & O1 & O2 & O3 & O4) HE HL H t'.
+  intros (_ & loc & O1 & O2 & O3 & O4) (Hlate & _ & IN2 & IN3) HE HL H t'.
   destruct (Nat.eq_dec t' t) as [->|Hne].
   2:{ rewrite (step_other _ _ _ _ _ H Hne). destruct (HL t') as (A & B). split; [|exact B].
       unfold pc_ok in *. destruct (t_pc (s_thr st t')); auto. destruct A as (A1 & A2). split; [assumption|].
       destruct (s_ptr st) as [p|] eqn:Hp; [|contradiction]. rewrite (step_ptr_stable _ _ _ _ _ H Hp). discriminate. }
   destruct (HL t) as (PC & LIN). unfold pc_ok in PC. unfold lin_ok in LIN.
-  unfold step in H. set (th := s_thr st t) in *.
+  unfold step in H. rewrite Hlate in H. set (th := s_thr st t) in *.
   destruct (t_pc th) eqn:Hpc.
   - (* Idle *)
     destruct (t_prog th) as [|[seed|seed site|hi|hi|x] rest] eqn:Hprog; [discriminate| | | | |].
@@ -651,7 +741,10 @@ Proof.
     destruct PC as (PC & Hnn).
     destruct (s_ptr st) as [q|] eqn:Hptr; [|contradiction]. injection H as <-. simpl. rewrite upd_same.
     split; [|exact LIN]. unfold pc_ok. simpl. exact PC.
-  - (* Get *)
+  - (* late New: not reachable *)
+    exfalso. exact (IN3 t seed p Hpc).
+  - (* Get: the pool has its New function, so Get never returns nil *)
+    rewrite (IN2 t seed p (or_intror Hpc)) in H. simpl negb in H. cbv iota in H.
     destruct (ch <? length (s_pool st p)); injection H as <-; simpl; rewrite upd_same;
       (split; [unfold pc_ok; simpl; exact PC|exact LIN]).
   - (* Fill *)
@@ -682,11 +775,13 @@ Qed.
 
 Lemma run_lininv progs sched : LinInv progs (run_from (init progs) sched).
 Proof.
-  assert (G : forall sched st, Inv st -> EvalInv st -> LinInv progs st ->
-              Inv (run_from st sched) /\ EvalInv (run_from st sched) /\ LinInv progs (run_from st sched)).
-  { induction sched0 as [|it r IH]; intros st HI HE HL; [unfold run_from; simpl; split; [assumption|split; assumption]|].
+  assert (G : forall sched st, Inv st -> InitInv st -> EvalInv st -> LinInv progs st ->
+              LinInv progs (run_from st sched)).
+  { induction sched0 as [|it r IH]; intros st HI HN HE HL; [exact HL|].
     unfold run_from in *. simpl. apply IH.
     - now apply exec_inv.
+    - destruct it as [t ch|p i]; simpl; [|exact HN].
+      destruct (step t ch st) eqn:Hs; [eapply step_initinv; eauto|exact HN].
     - destruct it as [t ch|p i]; simpl; [|exact HE].
       destruct (step t ch st) eqn:Hs; [eapply step_evalinv; eauto|exact HE].
     - destruct it as [t ch|p i]; simpl.
@@ -695,8 +790,9 @@ Proof.
         destruct (t_pc (s_thr st t)); auto. }
   apply G.
   - apply init_inv.
-  - intros t hi v1. unfold init, init_thread. simpl. discriminate.
-  - intros t. unfold init, init_thread. simpl. split; [exact I|]. unfold lin_ok, solo_run. simpl. reflexivity.
+  - apply (run_initinv progs []).
+  - intros t hi v1. unfold init, init_cfg, init_thread. simpl. discriminate.
+  - intros t. unfold init, init_cfg, init_thread. simpl. split; [exact I|]. unfold lin_ok, solo_run. simpl. reflexivity.
 Qed.
 
 (* In every interleaving, at every moment, the results a goroutine has
@@ -728,13 +824,13 @@ Definition dput_sched : list sitem :=
    SThread 1 0; SThread 1 0; SThread 1 0].                   (* goroutine 1 garbles: gets it, too *)
 
 Lemma double_put_refuted :
-  let st := run_from (init_cfg true dput_progs) dput_sched in
+  let st := run_from (init_cfg true false dput_progs) dput_sched in
   live (s_thr st 0) 0 = true /\ live (s_thr st 1) 0 = true /\
   h_scr (t_h (s_thr st 0) 0) = h_scr (t_h (s_thr st 1) 0) /\
   s_contents st (h_scr (t_h (s_thr st 0) 0)) <> h_gid (t_h (s_thr st 0) 0) /\
   exclusive 2 st = false /\
   (* right after the failed call the pool holds the scratch twice *)
-  s_pool (run_from (init_cfg true dput_progs) (firstn 4 dput_sched)) 0 = [0; 0].
+  s_pool (run_from (init_cfg true false dput_progs) (firstn 4 dput_sched)) 0 = [0; 0].
 Proof. vm_compute. repeat split; try reflexivity. discriminate. Qed.
 
 (* the same history on the model of the code as it is: exclusive *)
@@ -763,3 +859,40 @@ Proof.
   fold th in A. fold th' in B. specialize (A H). specialize (B H'). rewrite E in A. rewrite <- B in A.
   apply (f_equal (@rev res)) in A. now rewrite !rev_involutive in A.
 Qed.
+
+(* ------------------------------------------------------------------ *)
+(** * Initialise, then publish *)
+
+Lemma solo_no_panic prog : forall nh hs, ~ In RPanic (solo prog nh hs).
+Proof.
+  induction prog as [|[seed|seed site|hi|hi|x] r IH]; intros nh hs; simpl; [tauto| | | | |];
+    intros [H|H]; try discriminate; try (revert H; apply IH).
+  destruct ((hi <? nh) && negb (snd (hs hi))); discriminate.
+Qed.
+
+(* pool.Get() never returns nil: no Garble panics, in any interleaving *)
+Lemma no_panic progs sched t : ~ In RPanic (t_res (s_thr (run_from (init progs) sched) t)).
+Proof.
+  intros H. destruct (linearizable progs sched t) as (L & _).
+  apply (solo_no_panic (nth t progs []) 0 (fun _ => (0, true))). fold (solo_run (nth t progs [])).
+  rewrite <- L. apply in_or_app. left. now apply in_rev in H.
+Qed.
+
+(* Regression record: in the variant that publishes an EMPTY pool by
+   CompareAndSwap and assigns New afterwards, a goroutine that finds the
+   pointer already set reaches pool.Get() before New exists: Get returns nil
+   and its Garble panics.  Two goroutines, first use. *)
+Definition late_progs : list (list op) := [[OGarble 1]; [OGarble 2]].
+Definition late_sched : list sitem :=
+  [SThread 0 0; SThread 0 0;      (* goroutine 0: Load = nil, builds the empty pool, wins the CAS *)
+   SThread 1 0; SThread 1 0].     (* goroutine 1: Load = the empty pool, Get -> nil *)
+
+Lemma late_init_refuted :
+  let st := run_from (init_cfg false true late_progs) late_sched in
+  t_res (s_thr st 1) = [RPanic] /\ t_pc (s_thr st 0) = GInit 1 0 /\ s_ptr st = Some 0 /\ s_newset st 0 = false.
+Proof. vm_compute. repeat split. Qed.
+
+Example late_sched_ok_now :
+  let st := run_from (init late_progs) (late_sched ++ [SThread 0 0; SThread 0 0; SThread 1 0]) in
+  rev (t_res (s_thr st 0)) = [RGarble 1] /\ rev (t_res (s_thr st 1)) = [RGarble 2].
+Proof. vm_compute. split; reflexivity. Qed.
